@@ -26,7 +26,9 @@ impl Obs { fn count(&self) -> usize { self.bc.iter().flatten().count() + self.ee
 
 #[derive(Clone, Debug)]
 enum Ev { OpStart(usize), OpEnd(usize), RunStart { inst: usize, run_uid: u32, ordinal: u32, local: u32, obs: Obs }, Mark(u32),
-          Create { id: u32, sender: u32, kind: &'static str, target: Option<usize> }, Drop(u32), Canary(usize), Note(String) }
+          Create { id: u32, sender: u32, kind: &'static str, target: Option<usize> }, Drop(u32), Canary(usize), Note(String),
+          Registered { inst: usize, mode: u8, trigs: Vec<(Trig, Entity, bool)>, tok: Option<usize> }, Revoked(usize), SysDespawned(usize),
+          PreTrig { id: u32, bc: bool, ty: u8, entity: Entity, alive: bool } }
 
 struct St { trace: Vec<Ev>, ents: [Entity; NE], systems: Vec<SystemCommand>, published: Vec<usize>, tokens: Vec<RevokeToken>, scripts: Vec<Vec<Vec<Act>>>, inst_script: Vec<usize>,
             fuel: u32, next_id: u32, next_run: u32 }
@@ -116,8 +118,10 @@ fn exec(a: &Act, c: &mut Commands, sh: &Sh, run_uid: u32, q0: &mut ReactiveMut<R
         Act::Mark => { let id = st.next_id; st.next_id += 1; let sh2 = sh.clone(); c.queue(move |_: &mut World| sh2.lock().unwrap().trace.push(Ev::Mark(id))); }
         Act::Run(s) => { if st.published.is_empty() { return; } let sc = st.systems[st.published[s % st.published.len()]]; c.queue(sc); }
         Act::SendSe(s) => { if st.published.is_empty() { return; } let t = st.published[s % st.published.len()]; let sc = st.systems[t]; let id = new_id(&mut st, "se", Some(t)); drop(st); c.send_system_event(sc, SeP { id, st: sh.clone() }); }
-        Act::Bc(t) => { let id = new_id(&mut st, if t == 0 { "bc0" } else { "bc1" }, None); drop(st); if t == 0 { c.react().broadcast(BcP::<0> { id, st: sh.clone() }) } else { c.react().broadcast(BcP::<1> { id, st: sh.clone() }) } }
-        Act::Ee(s, t) => { let e = st.ents[s]; let id = new_id(&mut st, if t == 0 { "ee0" } else { "ee1" }, None); drop(st); if t == 0 { c.react().entity_event(e, EeP::<0> { id, st: sh.clone() }) } else { c.react().entity_event(e, EeP::<1> { id, st: sh.clone() }) } }
+        Act::Bc(t) => { let id = new_id(&mut st, if t == 0 { "bc0" } else { "bc1" }, None); drop(st);
+            { let sh2 = sh.clone(); c.queue(move |_: &mut World| sh2.lock().unwrap().trace.push(Ev::PreTrig { id, bc: true, ty: t, entity: Entity::PLACEHOLDER, alive: true })); } if t == 0 { c.react().broadcast(BcP::<0> { id, st: sh.clone() }) } else { c.react().broadcast(BcP::<1> { id, st: sh.clone() }) } }
+        Act::Ee(s, t) => { let e = st.ents[s]; let id = new_id(&mut st, if t == 0 { "ee0" } else { "ee1" }, None); drop(st);
+            { let sh2 = sh.clone(); c.queue(move |w: &mut World| { let alive = w.get_entity(e).is_ok(); sh2.lock().unwrap().trace.push(Ev::PreTrig { id, bc: false, ty: t, entity: e, alive }); }); } if t == 0 { c.react().entity_event(e, EeP::<0> { id, st: sh.clone() }) } else { c.react().entity_event(e, EeP::<1> { id, st: sh.clone() }) } }
         Act::Insert(s, t) => { let e = st.ents[s]; drop(st); if t == 0 { c.react().insert(e, Rc::<0>(1)) } else { c.react().insert(e, Rc::<1>(1)) } }
         Act::Mutate(s, t) => { let e = st.ents[s]; drop(st); if t == 0 { if let Ok(v) = q0.get_mut(c, e) { v.0 += 1; } } else { if let Ok(v) = q1.get_mut(c, e) { v.0 += 1; } } }
         Act::Remove(s, t) => { let e = st.ents[s]; c.queue(move |w: &mut World| { if let Ok(mut em) = w.get_entity_mut(e) { if t == 0 { em.remove::<React<Rc<0>>>(); } else { em.remove::<React<Rc<1>>>(); } } }); }
@@ -128,6 +132,8 @@ fn exec(a: &Act, c: &mut Commands, sh: &Sh, run_uid: u32, q0: &mut ReactiveMut<R
             let b = dyn_bundle(&st, &bundle);
             let script = script % st.scripts.len();
             st.inst_script.push(script);
+            let alive_flags: Arc<Mutex<Vec<bool>>> = Default::default();
+            { let af = alive_flags.clone(); let bb = b; c.queue(move |w: &mut World| { *af.lock().unwrap() = bb.t[..bb.n].iter().map(|(_, e)| *e == Entity::PLACEHOLDER || w.get_entity(*e).is_ok()).collect(); }); }
             let sc = c.spawn_system_command(make_body(inst, sh.clone()));
             st.systems.push(sc);
             st.trace.push(Ev::Note(format!("register inst{} mode{} {:?} script{}", inst, mode, bundle, script)));
@@ -135,10 +141,15 @@ fn exec(a: &Act, c: &mut Commands, sh: &Sh, run_uid: u32, q0: &mut ReactiveMut<R
             let m = match mode { 0 => ReactorMode::Persistent, 1 => ReactorMode::Cleanup, _ => ReactorMode::Revokable };
             let tok = c.react().with(b, sc, m);
             let sh2 = sh.clone();
-            c.queue(move |_: &mut World| { let mut st = sh2.lock().unwrap(); st.published.push(inst); if let Some(t) = tok { st.tokens.push(t); } });
+            c.queue(move |_: &mut World| { let mut st = sh2.lock().unwrap(); st.published.push(inst);
+                let tok_idx = tok.map(|t| { st.tokens.push(t); st.tokens.len() - 1 });
+                let af = alive_flags.lock().unwrap();
+                let trigs = b.t[..b.n].iter().zip(af.iter()).map(|((t, e), a)| (*t, *e, *a)).collect();
+                st.trace.push(Ev::Registered { inst, mode, trigs, tok: tok_idx }); });
         }
-        Act::Revoke(i) => { if st.tokens.is_empty() { return; } let tok = st.tokens[i % st.tokens.len()].clone(); drop(st); c.react().revoke(tok); }
-        Act::DespawnSys(s) => { if st.published.is_empty() { return; } let sc = st.systems[st.published[s % st.published.len()]]; c.queue(move |w: &mut World| { w.get_entity_mut(*sc).ok().map(|e| e.despawn()); }); }
+        Act::Revoke(i) => { if st.tokens.is_empty() { return; } let ti = i % st.tokens.len(); let tok = st.tokens[ti].clone(); drop(st); c.react().revoke(tok);
+            let sh2 = sh.clone(); c.queue(move |_: &mut World| sh2.lock().unwrap().trace.push(Ev::Revoked(ti))); }
+        Act::DespawnSys(s) => { if st.published.is_empty() { return; } let inst = st.published[s % st.published.len()]; let sc = st.systems[inst]; let sh2 = sh.clone(); c.queue(move |w: &mut World| { w.get_entity_mut(*sc).ok().map(|e| e.despawn()); sh2.lock().unwrap().trace.push(Ev::SysDespawned(inst)); }); }
     }
 }
 
@@ -190,6 +201,7 @@ fn run_program(seed: u64, verbose: bool) -> Result<(usize, usize), String> {
         if total != alive_e + alive_s { drop(st); return Err(format!("seed {seed}: CENSUS op {op}: world has {total} entities, expected {alive_e}+{alive_s}\n{}", dump(&sh))); }
         // checks over trace so far
         if let Err(m) = check(&st.trace) { drop(st); return Err(format!("seed {seed}: {m}\n{}", dump(&sh))); }
+        if let Err(m) = ledger_check(&st, world) { drop(st); return Err(format!("seed {seed}: {m}\n{}", dump(&sh))); }
         runs = st.trace.iter().filter(|e| matches!(e, Ev::RunStart { .. })).count();
         payloads = st.trace.iter().filter(|e| matches!(e, Ev::Create { .. })).count();
     }
@@ -251,4 +263,54 @@ fn main() {
         }
     }
     println!("ok={ok} bad={bad} runs={runs} payloads={pays} kinds={:?}", kinds);
+}
+
+struct Reg { inst: usize, trig: Trig, ent: Entity, effective: bool, tok: Option<usize>, revoked: bool }
+
+fn ledger_check(st: &St, world: &World) -> Result<(), String> {
+    let mut regs: Vec<Reg> = vec![];
+    let mut modes: HashMap<usize, u8> = HashMap::new();
+    let mut sys_despawned: Vec<usize> = vec![];
+    // payload id -> expected multiset of instances
+    let mut expected: HashMap<u32, HashMap<usize, usize>> = HashMap::new();
+    let mut observed: HashMap<u32, HashMap<usize, usize>> = HashMap::new();
+    for e in &st.trace {
+        match e {
+            Ev::Registered { inst, mode, trigs, tok } => { modes.insert(*inst, *mode); for (t, en, a) in trigs { regs.push(Reg { inst: *inst, trig: *t, ent: *en, effective: *a, tok: *tok, revoked: false }); } }
+            Ev::Revoked(ti) => { for r in regs.iter_mut() { if r.tok == Some(*ti) { r.revoked = true; } } }
+            Ev::SysDespawned(i) => sys_despawned.push(*i),
+            Ev::PreTrig { id, bc, ty, entity, alive } => {
+                let m = expected.entry(*id).or_default();
+                for r in &regs {
+                    if r.revoked || !r.effective { continue; }
+                    let hit = match (r.trig, *bc) {
+                        (Trig::Bc(t), true) => t == *ty,
+                        (Trig::Ee(_, t), false) => t == *ty && r.ent == *entity && *alive,
+                        (Trig::AnyEe(t), false) => t == *ty && (*alive || !cfg!(feature = "fixed")),
+                        _ => false,
+                    };
+                    if hit { *m.entry(r.inst).or_default() += 1; }
+                }
+            }
+            Ev::RunStart { inst, obs, .. } => {
+                for id in obs.bc.iter().flatten().copied().chain(obs.ee.iter().flatten().map(|x| x.1)) { *observed.entry(id).or_default().entry(*inst).or_default() += 1; }
+            }
+            _ => {}
+        }
+    }
+    let inst_alive = |i: usize| world.get_entity(*st.systems[i]).is_ok();
+    for (id, exp) in &expected {
+        let empty = HashMap::new();
+        let obs = observed.get(id).unwrap_or(&empty);
+        for (inst, n) in obs { if exp.get(inst).copied().unwrap_or(0) < *n { return Err(format!("DISPATCH-EXTRA payload {id}: inst{inst} ran {n}x, expected {:?}", exp)); } }
+        for (inst, n) in exp { let o = obs.get(inst).copied().unwrap_or(0); if o < *n && inst_alive(*inst) { return Err(format!("DISPATCH-MISSING payload {id}: inst{inst} ran {o}x of {n} and is alive; expected {:?} observed {:?}", exp, obs)); } }
+    }
+    for (id, obs) in &observed { if !expected.contains_key(id) && !obs.is_empty() { return Err(format!("DISPATCH-UNKNOWN payload {id} observed {:?}", obs)); } }
+    // lifetime at quiescence
+    for (inst, mode) in &modes {
+        let refcount = regs.iter().filter(|r| r.inst == *inst && r.effective && !r.revoked && (r.ent == Entity::PLACEHOLDER || world.get_entity(r.ent).is_ok())).count();
+        let expect_alive = !sys_despawned.contains(inst) && (*mode == 0 || refcount > 0);
+        if expect_alive != inst_alive(*inst) { return Err(format!("LIFETIME inst{inst} mode{mode}: alive={} expected {} (refcount {refcount})", inst_alive(*inst), expect_alive)); }
+    }
+    Ok(())
 }
